@@ -240,4 +240,29 @@ impl GraphQLClientCodegenOptions {
     pub fn serde_path(&self) -> &syn::Path {
         &self.serde_path
     }
+
+    /// Verification hook: every option as one line of `key=value` pairs separated by `;`.
+    #[cfg(graphql_client_verif)]
+    pub fn verif_dump(&self) -> String {
+        use quote::ToTokens;
+        format!(
+            "mode={:?};operation_name={:?};struct_name={:?};struct_ident={:?};variables_derives={:?};response_derives={:?};deprecation_strategy={:?};module_visibility={:?};query_file={:?};schema_file={:?};normalization={:?};custom_scalars_module={:?};extern_enums={:?};fragments_other_variant={:?};skip_serializing_none={:?};serde_path={:?}",
+            self.mode,
+            self.operation_name,
+            self.struct_name,
+            self.struct_ident.as_ref().map(|i| i.to_string()),
+            self.variables_derives,
+            self.response_derives,
+            self.deprecation_strategy,
+            self.module_visibility.as_ref().map(|v| v.to_token_stream().to_string()),
+            self.query_file,
+            self.schema_file,
+            self.normalization,
+            self.custom_scalars_module.as_ref().map(|p| p.to_token_stream().to_string()),
+            self.extern_enums,
+            self.fragments_other_variant,
+            self.skip_serializing_none,
+            self.serde_path.to_token_stream().to_string(),
+        )
+    }
 }
